@@ -91,6 +91,8 @@ fn terr(e: &TreeError) -> String {
         TreeError::NodeError(_) => "NodeError",
         TreeError::MatrixError(_) => "MatrixError",
         TreeError::GeneralError(_) => "GeneralError",
+        #[allow(unreachable_patterns)]
+        _ => "OtherTreeError", // a variant added to the crate later must not break the harness build
     };
     s.to_string()
 }
@@ -104,6 +106,8 @@ pub fn merr(e: &MatrixError) -> String {
         MatrixError::IndexError => "IndexError",
         MatrixError::NonZeroIdenticalDistance => "NonZeroIdenticalDistance",
         MatrixError::SizeError { .. } => "SizeError",
+        #[allow(unreachable_patterns)]
+        _ => "OtherMatrixError",
     };
     s.to_string()
 }
@@ -120,6 +124,8 @@ pub fn perr<T: std::fmt::Debug>(e: &PhylipParseError<T>) -> String {
         PhylipParseError::NonSymmetricMat => "NonSymmetricMat".into(),
         PhylipParseError::MatrixError(m) => format!("Matrix{}", merr(m)),
         PhylipParseError::IoError(_) => "IoError".into(),
+        #[allow(unreachable_patterns)]
+        _ => "OtherPhylipParseError".into(),
     }
 }
 fn nerr(e: &NewickParseError) -> String {
@@ -131,6 +137,8 @@ fn nerr(e: &NewickParseError) -> String {
         NewickParseError::TreeError(t) => format!("Tree{}", terr(t)),
         NewickParseError::FloatError(_) => "FloatError".into(),
         NewickParseError::IoError(_) => "IoError".into(),
+        #[allow(unreachable_patterns)]
+        _ => "OtherNewickParseError".into(),
     }
 }
 
@@ -249,6 +257,7 @@ fn pick(t: &Tree, kind: &str, k: usize) -> Vec<usize> {
     };
     match kind {
         "live" => sel(&live),
+        "removed" => sel(&(0..t.size()).filter(|i| t.get(i).is_err()).collect()),
         "root" => match t.get_root() {
             Ok(r) => vec![r],
             Err(_) => vec![],
